@@ -153,20 +153,37 @@ def run_setops(case, ctx):
     ctx.sample({'family': 'setops', 'pool': pool, 'sequences': len(seqs)}, limit=1)
 
 
+HTREES = [
+    (('a', 1), ('a', 2)), (('a', 2), ('a', 1)), (('a', 1), ('b', 1)), (('b', 1), ('a', 1)), (('a', 1),), (('b', 2),),
+    (('a', 1), ('a', 2), ('b', 1)), (('b', 1), ('a', 2), ('a', 1)), (('a', 1), ('a', 2), ('b', 1), ('b', 2)), (('b', 2), ('b', 1), ('a', 2), ('a', 1)),
+    # same shape as the full product, differing under the first / the last outer label only
+    (('a', 1), ('a', 3), ('b', 1), ('b', 2)), (('a', 1), ('a', 2), ('b', 1), ('b', 3)), (('a', 1), ('a', 2), ('c', 1), ('c', 2)),
+]
+
+
+def hier_index(tree, route):
+    '''route "product": IndexHierarchy.from_product when the tree is a full product in order (every outer label then shares ONE inner Index object)'''
+    if route == 'product':
+        outer = list(dict.fromkeys(t[0] for t in tree))
+        inner = list(dict.fromkeys(t[1] for t in tree))
+        if len(outer) > 1 and len(inner) > 1 and tuple(itertools.product(outer, inner)) == tuple(tree):
+            return sf.IndexHierarchy.from_product(outer, inner)
+        return None
+    return sf.IndexHierarchy.from_labels(tree)
+
+
 def run_setops_ih(case, ctx):
-    trees = [
-        (('a', 1), ('a', 2)), (('a', 2), ('a', 1)), (('a', 1), ('b', 1)), (('b', 1), ('a', 1)), (('a', 1),), (('b', 2),),
-        (('a', 1), ('a', 2), ('b', 1)), (('b', 1), ('a', 2), ('a', 1)), (('a', 1), ('a', 2), ('b', 1), ('b', 2)), (('b', 2), ('b', 1), ('a', 2), ('a', 1)),
-    ]
-    idx = [sf.IndexHierarchy.from_labels(t) for t in trees]
-    for (ta, ia), (tb, ib) in itertools.product(zip(trees, idx), repeat=2):
-        ctx.state(('setih', ta, tb))
+    pairs_ = [(t, r, hier_index(t, r)) for t in HTREES for r in ('labels', 'product')]
+    pairs_ = [(t, r, i) for t, r, i in pairs_ if i is not None]
+    trees = HTREES
+    for (ta, ra, ia), (tb, rb, ib) in itertools.product(pairs_, repeat=2):
+        ctx.state(('setih', ta, tb, ra, rb))
         if ta != tb:
             ctx.nontriv(('setih', ta, tb))
         ka, kb = [lkey(t) for t in ta], [lkey(t) for t in tb]
         for name, pyop in (('union', lambda x, y: x | y), ('intersection', lambda x, y: x & y), ('difference', lambda x, y: x - y)):
             ctx.transition()
-            info = dict(a=ta, b=tb, op=name)
+            info = dict(a=ta, b=tb, op=name, routes=(ra, rb))
             exp = pyop(set(ka), set(kb))
             try:
                 r = getattr(ia, name)(ib)
@@ -450,29 +467,25 @@ def run_unlabelled(case, ctx):
     ctx.sample({'family': 'unlabelled'}, limit=1)
 
 
-HTREES = [
-    (('a', 1), ('a', 2)), (('a', 2), ('a', 1)), (('a', 1), ('b', 1)), (('b', 1), ('a', 1)), (('a', 1),), (('b', 2),),
-    (('a', 1), ('a', 2), ('b', 1)), (('b', 1), ('a', 2), ('a', 1)), (('a', 1), ('a', 2), ('b', 1), ('b', 2)), (('b', 2), ('b', 1), ('a', 2), ('a', 1)),
-]
-
-
 def run_hier_ops(case, ctx):
     '''operators between containers labelled hierarchically (Series index, Frame columns): pairing by full tuple'''
     def val(t, side):
         return (ord(t[0]) - 96) * 10 + t[1] + 100 * side
-    for ta, tb in itertools.product(HTREES, repeat=2):
-        sa = sf.Series([val(t, 0) for t in ta], index=sf.IndexHierarchy.from_labels(ta))
-        sb = sf.Series([val(t, 1) * 1.5 for t in tb], index=sf.IndexHierarchy.from_labels(tb))
-        fa = sf.Frame.from_records([[val(t, 0) for t in ta]], columns=sf.IndexHierarchy.from_labels(ta), index=('x',))
-        fb = sf.Frame.from_records([[val(t, 1) * 1.5 for t in tb]], columns=sf.IndexHierarchy.from_labels(tb), index=('x',))
+    for ta, tb, ra, rb in itertools.product(HTREES, HTREES, ('labels', 'product'), ('labels', 'product')):
+        if hier_index(ta, ra) is None or hier_index(tb, rb) is None:
+            continue
+        sa = sf.Series([val(t, 0) for t in ta], index=hier_index(ta, ra))
+        sb = sf.Series([val(t, 1) * 1.5 for t in tb], index=hier_index(tb, rb))
+        fa = sf.Frame.from_records([[val(t, 0) for t in ta]], columns=hier_index(ta, ra), index=('x',))
+        fb = sf.Frame.from_records([[val(t, 1) * 1.5 for t in tb]], columns=hier_index(tb, rb), index=('x',))
         da, db = {t: val(t, 0) for t in ta}, {t: val(t, 1) * 1.5 for t in tb}
-        ctx.state(('hier', ta, tb))
+        ctx.state(('hier', ta, tb, ra, rb))
         if ta != tb:
             ctx.nontriv(('hier', ta, tb))
         for name, f in (('add', op.add), ('mul', op.mul), ('sub', op.sub), ('lt', op.lt)):
             for kind, x, y in (('series', sa, sb), ('frame-columns', fa, fb)):
                 ctx.transition()
-                info = dict(op=name, a=ta, b=tb, kind=kind)
+                info = dict(op=name, a=ta, b=tb, kind=kind, routes=(ra, rb))
                 try:
                     r = f(x, y)
                 except Exception as e:
